@@ -2,6 +2,7 @@ import GcArena.Proofs.Quiet
 import GcArena.Proofs.Exact
 import GcArena.Proofs.RunBridge
 import GcArena.Proofs.ProtRun
+import GcArena.Proofs.TightRun
 /-!
 # C07 — Finalization: dead means unreachable, resurrection holds for the cycle
 
@@ -127,6 +128,46 @@ theorem marked_exact :
     have := hinv.cinv; rw [hinv.cbTemps hcb] at this; exact this
   exact marked_exact_of_micros h0 hsl (.wake :: ms) hs hm i o ho
 
+/-- In a fully marked, tight state `is_dead` is exact. -/
+private theorem isDead_iff_of_tight {c : Ctx} {root temps} (hc : CInv c root temps) (T : Tight c root)
+    (hm : Arena.isMarked c = true) (i : Nat) (o : Obj) (ho : c.heap.get i = some o) :
+    isDead c i ↔ ¬ StrongReachC c root i := by
+  constructor
+  · rintro ⟨o1, ho1, hcol⟩ hr
+    obtain ⟨o2, ho2, hb⟩ := reachable_black hc hm hr
+    rw [ho1] at ho2; cases ho2
+    rw [hb] at hcol; rcases hcol with hcol | hcol <;> cases hcol
+  · intro hnr
+    refine ⟨o, ho, ?_⟩
+    cases hcol : o.color with
+    | white => exact Or.inl rfl
+    | whiteWeak => exact Or.inr rfl
+    | gray => exact absurd ((T.tm i o ho).1 (Or.inl hcol)) hnr
+    | black => exact absurd ((T.tm i o ho).1 (Or.inr hcol)) hnr
+
+/-- **Exact if unmutated, over API histories** (proved).  From any sleeping state an arena can
+    reach, run any sequence of collection calls — `mark_debt` with any debt any number of times,
+    `finish_marking`, whole cycles, self- or oracle-driven, with faults — interleaved with
+    callbacks that only *observe* (`Op.isObserver`: enter / leave of every kind, reads, `downgrade`,
+    `upgrade`, `is_dropped`, `is_dead`, pacing and debt knobs; no allocation, store, barrier, root
+    replacement or resurrection).  Whenever the arena is then fully marked — a `MarkedArena` would be
+    handed out — an allocated object reports `is_dead` exactly when it is not strongly reachable
+    from the root; also from inside the `finalize` callback. -/
+theorem marked_exact_ops (n : Nat) (pre ops : List Op) :
+    let a := (Arena.new n).run pre
+    let b := a.run ops
+    a.alive = true → a.ctx.phase = .sleep →
+    (∀ op, op ∈ ops → op.isObserver = true ∨ op.isMutator = false) →
+    b.alive = true → Arena.isMarked b.ctx = true →
+    ∀ i o, b.ctx.heap.get i = some o → (isDead b.ctx i ↔ ¬ StrongReach b i) := by
+  intro a b halive hsl hops hbal hm i o ho
+  have h : Inv a := inv_run n pre halive
+  obtain ⟨t, hb⟩ := run_tightOrAsleep ops a h hbal hops (fun hne => absurd hsl hne)
+  have hph : b.ctx.phase = .mark := by
+    simp only [Arena.isMarked, Bool.and_eq_true, decide_eq_true_eq] at hm
+    exact hm.1
+  exact isDead_iff_of_tight hb.cinv (t (by rw [hph]; simp)) hm i o ho
+
 /-- **Exact if unmutated, at the API** (proved): on any sleeping state an arena can reach, outside
     callbacks, the self-driven `Arena::finish_marking()` returns `Some(MarkedArena)`, and in the
     arena it hands to `finalize` an allocated object reports `is_dead` exactly when it is not
@@ -220,6 +261,124 @@ theorem resurrect_protects_run_closure (a : Arena) (t : Nat) (ops : List Op) (hi
   have hs := safe_closure hfin.cinv (resurrect_protects_run a t ops hinv hp hmk halive hcycle).1 hj
   obtain ⟨o, ho, hl, _⟩ := hs
   exact ⟨⟨o, ho, hl, ‹_›⟩, o, ho, hl⟩
+
+/-! ### Resurrection, composed with protection -/
+
+private theorem resurrect_weak_some {a : Arena} (halive : a.alive = true) (t : Nat)
+    (hout : (a.step (.resurrect (.weak t))).2 = "some") :
+    a.cb = some .finalize ∧ a.holds (.weak t) = true ∧
+    (∃ o, a.ctx.heap.get t = some o ∧ o.live = true) ∧
+    (a.step (.resurrect (.weak t))).1.ctx = a.ctx.resurrect t := by
+  have hnot : (!a.alive) = false := by rw [halive]; rfl
+  unfold Arena.step at hout ⊢
+  rw [hnot] at hout ⊢
+  simp only [Bool.false_eq_true, if_false, Arena.stepBody] at hout ⊢
+  split at hout
+  · simp [Arena.bad] at hout
+  · rename_i hg
+    rw [if_neg hg]
+    simp only [Bool.or_eq_true, Bool.not_eq_true', not_or, Bool.not_eq_false, decide_eq_true_eq,
+      Decidable.not_not] at hg
+    cases ho : a.ctx.heap.get t with
+    | none => simp [ho] at hout
+    | some o =>
+      simp only [ho] at hout ⊢
+      cases hl : o.live with
+      | false => simp [hl] at hout
+      | true =>
+        simp only [if_true]
+        exact ⟨hg.1, hg.2, ⟨o, rfl, hl⟩, (Arena.push_spec _ _).1⟩
+
+private theorem resurrect_strong_ok {a : Arena} (halive : a.alive = true) (t : Nat)
+    (hout : (a.step (.resurrect (.strong t))).2 = "ok") :
+    a.cb = some .finalize ∧ a.holds (.strong t) = true ∧
+    (a.step (.resurrect (.strong t))).1.ctx = a.ctx.resurrect t := by
+  have hnot : (!a.alive) = false := by rw [halive]; rfl
+  unfold Arena.step at hout ⊢
+  rw [hnot] at hout ⊢
+  simp only [Bool.false_eq_true, if_false, Arena.stepBody] at hout ⊢
+  split at hout
+  · simp [Arena.bad] at hout
+  · rename_i hg
+    rw [if_neg hg]
+    simp only [Bool.or_eq_true, Bool.not_eq_true', not_or, Bool.not_eq_false, decide_eq_true_eq,
+      Decidable.not_not] at hg
+    exact ⟨hg.1, hg.2, rfl⟩
+
+/-- What the rest of the cycle cannot do to a protected object and its strong closure. -/
+def ProtectedThrough (a : Arena) (t : Nat) : Prop :=
+  ∀ ops : List Op, (a.run ops).alive = true →
+    (∃ new, (a.run ops).ctx.steps = new ++ a.ctx.steps ∧ 'Z' ∉ new) →
+    (∀ j, AccessibleC (a.run ops).ctx [] [Ptr.strong t] j →
+      Safe (a.run ops).ctx j ∧ ∃ o, (a.run ops).ctx.heap.get j = some o ∧ o.live = true) ∧
+    ∃ evs, (a.run ops).ctx.log = evs ++ a.ctx.log ∧ Event.dropped t ∉ evs ∧ Event.freed t ∉ evs
+
+private theorem protectedThrough_of_marked {a : Arena} (hinv : Inv a) (hp : a.ctx.phase = .mark) {t : Nat}
+    (hmk : PtrMarked a.ctx (.strong t)) : ProtectedThrough a t := by
+  intro ops hal hcycle
+  exact ⟨resurrect_protects_run_closure a t ops hinv hp hmk hal hcycle,
+    (resurrect_protects_run a t ops hinv hp hmk hal hcycle).2.2⟩
+
+/-- **Resurrection, then protection — in one statement.**  On any state an arena can reach: if
+    `GcWeak::resurrect` on the weak pointer to `t` returns `Some` (the guard exactly as `Arena.step`
+    decides it: inside a `finalize` callback, the pointer is held, the target is allocated and
+    undestructed), then through *every* continuation `ops` of the history — the rest of the
+    finalizer, further callbacks of every kind with any mutation, whether or not the pointer is ever
+    stored, collection calls of every method including the sweep of this cycle — for as long as the
+    arena exists and the cycle has not been completed (no new `'Z'` in the step log): `t` and
+    everything strongly reachable from `t` in the state reached is allocated, undestructed and out
+    of the sweep's reach, and no `dropped` / `freed` event about `t` has been logged.  Also: the
+    arena reports Marking right after the call if `t` was dead. -/
+theorem resurrect_then_protected (n : Nat) (pre : List Op) (t : Nat) :
+    let a := (Arena.new n).run pre
+    let r := a.step (.resurrect (.weak t))
+    a.alive = true → r.2 = "some" →
+    ProtectedThrough r.1 t ∧ (isDead a.ctx t → r.1.collectionPhase = "Marking") := by
+  intro a r halive hout
+  have h : Inv a := inv_run n pre halive
+  obtain ⟨hcb, hh, ⟨o, ho, hl⟩, hctx⟩ := resurrect_weak_some halive t hout
+  have hmark : a.ctx.phase = .mark := h.finMark hcb
+  have hs : Safe a.ctx t := ⟨o, ho, hl, fun hp => by rw [hmark] at hp; cases hp⟩
+  obtain ⟨_, mm, hmk⟩ := resurrect_spec h.cinv hmark hs
+  have hal1 : r.1.alive = true := by
+    have hnot : (!a.alive) = false := by rw [halive]; rfl
+    show (a.step (.resurrect (.weak t))).1.alive = true
+    unfold Arena.step; rw [hnot]
+    simp only [Bool.false_eq_true, if_false, Arena.stepBody]
+    split
+    · exact halive
+    · simp only [ho, hl, if_true]
+      rw [(Arena.push_spec _ _).2.2.2.2.2.1]; exact halive
+  have h1 : Inv r.1 := inv_step h _ hal1
+  refine ⟨protectedThrough_of_marked h1 (by rw [hctx, mm.phase]; exact hmark) (by rw [hctx]; exact hmk), ?_⟩
+  rintro ⟨o', ho', hd⟩
+  rw [ho] at ho'; cases ho'
+  have hg := resurrect_marking a.ctx t o ho hd
+  show r.1.collectionPhase = "Marking"
+  unfold Arena.collectionPhase
+  rw [hctx, mm.phase, hmark]
+  simp [hg]
+
+/-- The same for `Gc::resurrect` on a held strong pointer (it returns nothing; accepted ⇔ inside
+    `finalize` with the pointer held). -/
+theorem resurrect_strong_then_protected (n : Nat) (pre : List Op) (t : Nat) :
+    let a := (Arena.new n).run pre
+    let r := a.step (.resurrect (.strong t))
+    a.alive = true → r.2 = "ok" → ProtectedThrough r.1 t := by
+  intro a r halive hout
+  have h : Inv a := inv_run n pre halive
+  obtain ⟨hcb, hh, hctx⟩ := resurrect_strong_ok halive t hout
+  have hmark : a.ctx.phase = .mark := h.finMark hcb
+  have hs : Safe a.ctx t := h.ptrOK_of_holds hh
+  obtain ⟨_, mm, hmk⟩ := resurrect_spec h.cinv hmark hs
+  have hal1 : r.1.alive = true := by
+    have hnot : (!a.alive) = false := by rw [halive]; rfl
+    show (a.step (.resurrect (.strong t))).1.alive = true
+    unfold Arena.step; rw [hnot]
+    simp only [Bool.false_eq_true, if_false, Arena.stepBody]
+    split <;> exact halive
+  have h1 : Inv r.1 := inv_step h _ hal1
+  exact protectedThrough_of_marked h1 (by rw [hctx, mm.phase]; exact hmark) (by rw [hctx]; exact hmk)
 
 /-! ### Non-vacuity -/
 
@@ -347,5 +506,44 @@ example : Safe (afterRes.run laterOps).ctx 1 ∧
 
 example : (afterRes.run laterOps).ctx.phase = .sweep ∧ (afterRes.run laterOps).ctx.pre = [2, 1] ∧
     (afterRes.run laterOps).ctx.rest = [0] := by decide
+
+/-! ### Non-vacuity of `resurrect_then_protected` and `marked_exact_ops` -/
+
+/-- `demo.take 12` is the state right before the `resurrect` op of `demo`; the op returns `some`,
+    and through `laterOps` (mutation, marking, sweep — see above) object 1 stays safe. -/
+example : Safe ((((Arena.new 2).run (demo.take 12)).step (.resurrect (.weak 1))).1.run laterOps).ctx 1 :=
+  (((resurrect_then_protected 2 (demo.take 12) 1 (by decide) (by decide)).1 laterOps (by decide)
+    ⟨['x', 'x', 'S', 'b', 'b', 'g', 'g', 'g'], by decide, by decide⟩).1 1 (.temp 1 (by simp))).1
+
+/-- Marking in three `mark_debt`-style increments (oracle-driven) with a reading callback in
+    between, then inside `finalize`: `is_dead` is exact there. -/
+def incrementalMarking : List Op := [
+  .collect .markDebt .drop none (some [.wake, .markStep none]),
+  .enter .mutate, .readRoot 0, .read 0 0, .leave,
+  .collect .markDebt .drop none (some [.markStep none]),
+  .collect .markDebt .finalize none (some [.markBreak]),
+  .enter .finalize, .readRoot 0, .read 0 0 ]
+
+example : isDead (sleeping.run incrementalMarking).ctx 1 := by
+  unfold sleeping
+  have key := marked_exact_ops 2 (demo.take 7) incrementalMarking (by decide) (by decide) (by decide)
+    (by decide) (by decide) 1 ⟨.whiteWeak, true, true, [none]⟩ (by decide)
+  refine key.mpr ?_
+  intro hr
+  have hroot : (((Arena.new 2).run (demo.take 7)).run incrementalMarking).root = [some (.strong 0), none] := by
+    decide
+  have h0 : (((Arena.new 2).run (demo.take 7)).run incrementalMarking).ctx.heap.get 0 =
+      some ⟨.black, true, true, [some (.weak 1)]⟩ := by decide
+  have reach : ∀ j, StrongReach (((Arena.new 2).run (demo.take 7)).run incrementalMarking) j → j = 0 := by
+    intro j hj
+    induction hj with
+    | root t ht => rw [hroot] at ht; simpa using ht
+    | temp t ht => cases ht
+    | edge i t _ e ih =>
+      subst ih
+      obtain ⟨o, ho, hs⟩ := e
+      rw [h0] at ho; cases ho
+      simp at hs
+  cases reach 1 hr
 
 end GcArena.C07
